@@ -254,10 +254,10 @@ func main() {
 		r.Cases("cliques/big", r.N(300, 1500), hv, bigCliqueCase)
 	}
 	r.Cases("cliques/labels", r.N(8000, 150000), hv, labelCase)
-	r.Cases("cliques/grow", r.N(30000, 600000), hv, growCase)
+	r.Cases("cliques/grow", r.N(30000, 300000), hv, growCase)
 	r.Cases("knapsack/hugevalues", r.N(6000, 150000), hv, hugeValueKnapsackCase)
 	r.Cases("finddp/hugelimit", r.N(3000, 60000), hv, hugeCase(false))
-	r.Cases("session/serial", r.N(6000, 150000), ev.Opt{HangViolation: true, MaxCaseSeconds: 60, Serial: true}, sessionCase)
+	r.Cases("session/serial", r.N(6000, 100000), ev.Opt{HangViolation: true, MaxCaseSeconds: 60, Serial: true}, sessionCase)
 	r.Cases("finddp/overflow", r.N(6000, 150000), hv, hugeCase(true))
 
 	// anti-vacuity floors: about 1/5 .. 1/10 of what the quick tier observes at seed 1
